@@ -136,6 +136,158 @@ def impl_color(text):
     return {"rgba": _color_tuple(pv[0]), "ser": pv[0].cssText, "ctype": pv[0].colorType}
 
 
+# ------------------------------------------------------------------------------- assignment histories on ONE object
+HIST_FIRST = {
+    "DimensionValue": ["5px", "-5px", "+5px", "0.5em", "-.25%", "+0.75", "0px", "12.5", "1e3"],
+    "ColorValue": ["#abc", "#AABBCC", "red", "rgb(1, 2, 3)", "rgba(10%, 20%, 30%, 0.5)", "hsl(120, 100%, 50%)"],
+    "PropertyValue": ["5px", "-0.5em 2px", "+1.5% red", "#aabbcc 0.25px", "rgb(1, 2, 3) -7px"],
+}
+BIG = "9" * 400
+HUGE = "9" * 5000
+HIST_SECOND = {
+    "DimensionValue": [
+        # rejected: out of range with another sign / unit / kind
+        "-" + BIG + ".5px", "+" + BIG + ".5em", BIG + ".5%", "-" + BIG + ".5", "-" + HUGE + "px", "+" + HUGE, HUGE + "%",
+        # rejected: syntax, arity, wrong kind
+        "-5 px", "--5px", "5px 6px", "-7em -8em", "", "-", "+", "red", "#fff", "rgb(1, 2, 3)", "-5px junk", "5px;", "-.",
+        "url(x)", "'-3px'", "-3px/2", "calc(1px + 2px)",
+        # accepted: the state must follow
+        "-3em", "+.5%", "7", "-0.9999999px", "0", "-0.0px"],
+    "ColorValue": [
+        "rgb(1, 2)", "rgb(1, 2, 3, 4)", "rgba(1, 2, 3)", "hsl(1, 2, 3)", "hsl(1%, 2%, 3%)", "rgb(1, 2%, 3)", "#12", "#abcd",
+        "-#fff", "notacolor", "5px", "", "rgb(1, 2, 3", "hsla(1, 2%, 3%)", "rgb(" + BIG + ".5, 0, 0)", "rgb(-" + HUGE + ", 0, 0)",
+        "rgba(1, 2, 3, -" + BIG + ".5)", "red blue", "#fff #000",
+        "#123", "blue", "rgb(9, 8, 7)", "hsla(240, 100%, 50%, 0.25)"],
+    "PropertyValue": [
+        "-" + BIG + ".5px", "1px -" + BIG + ".5em", "rgb(1, 2) 5px", "-" + HUGE + "px", "5px )", "(", "-", "", "5px;6px",
+        "rgb(1, 2, 3, 4)", "+" + BIG + ".5 red", "#12 -4px", "1px ! important",
+        "-3em", "+.5% blue", "0.9999999px -0.9999999px", "#aAbBcC 0"],
+}
+
+
+def _dim_state(d):
+    return {"k": "dim", "val": fnum(d.value), "unit": d.dimension or "", "type": d.type}
+
+
+def _item_state(x):
+    n = type(x).__name__
+    if n == "DimensionValue":
+        return _dim_state(x)
+    if n == "ColorValue":
+        return {"k": "color", "rgba": _color_tuple(x)}
+    return {"k": "other", "type": str(getattr(x, "type", None)), "text": x.cssText}
+
+
+def _obj_state(kind, obj):
+    """what the object reports now, its serialisation, and that serialisation parsed again"""
+    import css_parser
+    from css_parser.css import PropertyValue
+    st = {}
+    try:
+        if kind == "PropertyValue":
+            st["items"] = [_item_state(x) for x in obj]
+        else:
+            st["items"] = [_item_state(obj)]
+        st["ser"] = obj.cssText
+    except Exception as e:  # noqa
+        st["exc"] = type(e).__name__
+        return st
+    # parsed again in the mode the history runs in (with raiseExceptions off an error is logged and the lenient
+    # result is kept, for the assignment and for the re-parse alike)
+    try:
+        st["again"] = [_item_state(x) for x in PropertyValue(st["ser"])] if st["ser"] != "" else []
+    except Exception as e:  # noqa
+        st["again_exc"] = type(e).__name__
+    return st
+
+
+def impl_history(case):
+    """(kind, raiseExceptions, olz, [text, text, ...]) -> the state after the construction and after every assignment"""
+    kind, rx, olz, texts = case
+    cp = _setup()
+    import css_parser.css as C
+    keep = cp.log.raiseExceptions
+    cp.ser.prefs.omitLeadingZero = bool(olz)
+    try:
+        cp.log.raiseExceptions = True
+        try:
+            obj = getattr(C, kind)(texts[0])
+        except Exception as e:  # noqa
+            return [{"ctor_exc": type(e).__name__}]
+        out = [_obj_state(kind, obj)]
+        cp.log.raiseExceptions = bool(rx)
+        for t in texts[1:]:
+            exc = None
+            try:
+                obj.cssText = t
+            except Exception as e:  # noqa
+                exc = type(e).__name__
+            st = _obj_state(kind, obj)
+            st["assign_exc"] = exc
+            out.append(st)
+        return out
+    finally:
+        cp.log.raiseExceptions = keep
+        cp.ser.prefs.omitLeadingZero = False
+
+
+def _same_item(a, b):
+    """the re-parsed item b carries the value the object reports in a (C17's round-trip tolerance)"""
+    if a["k"] != b["k"]:
+        return "reported %s, re-parsed %s" % (a["k"], b["k"])
+    if a["k"] == "dim":
+        if a["val"][0] in ("INF", "?") or b["val"][0] in ("INF", "?"):
+            return "non-numeric value %r / %r" % (a["val"], b["val"])
+        v, v2 = frac_of(a["val"]), frac_of(b["val"])
+        if abs(v2 - v) > HALF6 + (abs(v) + abs(v2)) * EPS53 + 2 * TINY:
+            return "object reports %s, its cssText parses back to %s" % (float(v), float(v2))
+        if a["unit"] != b["unit"] and not (b["unit"] == "" and v == 0 and a["unit"] in ZERO_UNITS_SPEC):
+            return "object reports unit %r, its cssText parses back with %r" % (a["unit"], b["unit"])
+        return None
+    if a["k"] == "color":
+        for x, y in zip(a["rgba"], b["rgba"]):
+            if x[0] in ("INF", "?") or y[0] in ("INF", "?") or abs(frac_of(x) - frac_of(y)) > Fraction(1, 10 ** 9):
+                return "object reports colour %r, its cssText parses back to %r" % (a["rgba"], b["rgba"])
+        return None
+    return None if a["type"] == b["type"] else "reported %r, re-parsed %r" % (a, b)
+
+
+def oracle_history(states):
+    """after every step the serialisation must parse back to what the object reports; None or (step, description)"""
+    for k, st in enumerate(states):
+        if "ctor_exc" in st:
+            return None                        # the first text was not accepted: nothing to observe
+        if "exc" in st:
+            return k, "reading the object's state raised %s" % st["exc"]
+        if "again_exc" in st or "again" not in st:
+            return k, "cssText %r of the object does not parse (%s)" % (st.get("ser", "")[:60], st.get("again_exc"))
+        if len(st["again"]) != len(st["items"]):
+            return k, "cssText %r parses back to %d items, the object has %d" % (st["ser"][:60], len(st["again"]), len(st["items"]))
+        for a, b in zip(st["items"], st["again"]):
+            d = _same_item(a, b)
+            if d:
+                return k, "%s (cssText %r)" % (d, st["ser"][:60])
+    return None
+
+
+def gen_histories(ctx, thorough):
+    rng = ctx.rng
+    cases = []
+    for kind in ("DimensionValue", "ColorValue", "PropertyValue"):
+        for first in HIST_FIRST[kind]:
+            for second in HIST_SECOND[kind]:
+                for rx in (0, 1):
+                    for olz in (0, 1):
+                        cases.append((kind, rx, olz, [first, second]))
+    n = len(cases)
+    # longer histories: valid / rejected texts interleaved on one object
+    for _ in range(3000 if thorough else 600):
+        kind = rng.choice(["DimensionValue", "DimensionValue", "ColorValue", "PropertyValue"])
+        texts = [rng.choice(HIST_FIRST[kind])] + [rng.choice(HIST_SECOND[kind] + HIST_FIRST[kind]) for _ in range(rng.randint(2, 5))]
+        cases.append((kind, rng.choice([0, 1]), rng.choice([0, 1]), texts))
+    return cases, n
+
+
 # ------------------------------------------------------------------------------- model side (decoding)
 def bits(x):
     return int(x, 2)
@@ -549,6 +701,9 @@ def check_witness(ctx, w):
         return oracle_hash(w["text"], impl_hash((w["mz"], w["text"])))
     if w["kind"] == "name":
         return oracle_name(w["text"], impl_color(w["text"]), css3_table())
+    if w["kind"] == "history":
+        r = oracle_history(impl_history((w["obj"], w["raise"], w["olz"], w["texts"])))
+        return r[1] if r else None
     return None
 
 
@@ -769,6 +924,25 @@ def run(ctx):
     stats["function_cases"] = len(fns)
     stats["function_cases_with_out_of_range_argument"] = n_oor
 
+    # ---- 6. assignment histories on ONE value object (valid -> rejected / accepted -> ...), both raiseExceptions
+    #         modes and both omitLeadingZero settings: after every step the object's cssText must parse back to the
+    #         value the object reports (the round-trip oracle on the object's CURRENT state)
+    hist, n_hist_grid = gen_histories(ctx, thorough)
+    hist = [tuple(h[:3]) + (list(h[3]),) for h in corpus.get("histories", [])] + hist
+    hres = ctx.pool_map(impl_history, hist, procs=6, chunksize=64)
+    n_rejected = 0
+    for h, states in zip(hist, hres):
+        n_rejected += sum(1 for st in states[1:] if st.get("assign_exc") or "again" in st and st["items"] == states[0].get("items"))
+        r = oracle_history(states)
+        if r:
+            k, d = r
+            w = {"kind": "history", "obj": h[0], "raise": h[1], "olz": h[2], "texts": h[3][:k + 1],
+                 "text": " ; ".join(x if len(x) < 40 else x[:12] + "...(%d chars)" % len(x) for x in h[3][:k + 1])}
+            ctx.violation("after %s on one %s: %s" % ("the construction" if k == 0 else "assignment %d" % k, h[0], d), w,
+                          sig_text=json.dumps(w["text"]))
+    stats["history_cases"] = len(hist)
+    stats["history_steps_leaving_the_state_unchanged"] = n_rejected
+
     if mism:
         ctx.broken("correspondence", "Numbers.v / Colors.v vs css_parser",
                    "%d cases differ; first: %s" % (len(mism), json.dumps(mism[:4], default=str)))
@@ -825,7 +999,7 @@ def run(ctx):
                     return {"kind": "name", "text": n, "fails": d}
         return None
 
-    total = len(allc) + len(splits) + len(hcases) + len(names) + len(fns)
+    total = len(allc) + len(splits) + len(hcases) + len(names) + len(fns) + len(hist)
     ctx.finish({
         "evaluations": total,
         "distinct_nontrivial": len(nontrivial),
@@ -837,7 +1011,10 @@ def run(ctx):
                 "hex: all 4096 #rgb, all 4096 shortenable #rrggbb, random 3/6-digit mixed-case hashes, non-colours; each "
                 "under minimizeColorHash off and on. names: every key of the CSS3 table and of COLORS in three "
                 "capitalisations plus non-names. functions: rgb/rgba/hsl/hsla grids incl. out-of-range, fractional, signed, "
-                "wrong-kind arguments. non-trivial = distinct number lexemes whose cssText differs from the source text"
+                "wrong-kind arguments. histories: every (first text x second text x raiseExceptions x omitLeadingZero) over the "
+                "DimensionValue / ColorValue / PropertyValue lists (second texts: out of range with another sign/unit/kind, "
+                "too many digits, syntax errors, wrong arity/kind, and accepted ones) plus random histories of 3-6 "
+                "assignments on one object; after every step cssText must parse back to what the object reports. non-trivial = distinct number lexemes whose cssText differs from the source text"
                 % (7 if thorough else 4, "" if thorough else ", 400 sampled longer patterns", len(UNITS),
                    5 if thorough else 4, "".join(alpha)),
         "samples": [[o, lex_text(l)] for o, l in cases[1001:1004]] + [hashes[5000], fn_text(fns[40]), names[7]],
